@@ -858,11 +858,39 @@ def fam_par(cfg, rng):
     return h
 
 
+def fam_cost(cfg, rng):
+    """clone, then flush k writes / pop_front on the original: the clone keeps the old tree alive so
+    that sharing between the two versions is observable"""
+    h = H(cfg, rng, 'cost')
+    n = rng.randint(1, h.maxlen(64))
+    h.new_list(0, h.vals(n), slow=rng.random() < 0.1)
+    if rng.random() < 0.6:
+        h.hash(0)
+    h.clone(0, 1)
+    c = rng.random()
+    if c < 0.6:
+        for _ in range(rng.randint(1, 4)):
+            if rng.random() < 0.7:
+                h.write(0, how=rng.choice(['set', 'cow_into', 'cow_make']))
+            elif len(h.regs[0]['v']) < cfg.n:
+                h.push(0)
+        h.apply(0)
+        h.hash(0) if rng.random() < 0.5 else None
+        h.hash(1) if rng.random() < 0.5 else None
+    else:
+        ln = len(h.regs[0]['v'])
+        k = rng.choice([1, 2, 4, 8, 16, 32, (cfg.pf or 1), 2 * (cfg.pf or 1), rng.randint(0, ln)])
+        h.pop_front(0, min(k, ln))
+        h.hash(0)
+    h.check_fresh(0)
+    return h
+
+
 FAMILIES = {
     'crud': fam_crud, 'versions': fam_versions, 'hash_placement': fam_hash_placement,
     'rebase_pairs': fam_rebase_pairs, 'intra': fam_intra, 'suffix': fam_suffix,
     'capacity': fam_capacity, 'bulk': fam_bulk, 'codec': fam_codec, 'invalid_args': fam_invalid,
-    'builder': fam_builder, 'builder_nodes': fam_builder_nodes, 'big': fam_big, 'deep': fam_deep, 'par': fam_par,
+    'builder': fam_builder, 'builder_nodes': fam_builder_nodes, 'big': fam_big, 'deep': fam_deep, 'par': fam_par, 'cost': fam_cost,
 }
 
 
